@@ -92,6 +92,11 @@ struct DumpVisitor {
             }
             out << "]>";
         }
+        else if constexpr (std::is_same_v<U, SummaryState>) {
+            // well_names / group_names are `mutable` caches filled by the const getters wells() / groups() (operator== uses them)
+            (void)x.wells(); (void)x.groups();
+            out << "<"; const_cast<U&>(x).serializeOp(*this); out << ">";
+        }
         else if constexpr (std::is_same_v<U, UDQDefine>) { (void)x.input_string(); out << "<"; const_cast<U&>(x).serializeOp(*this); out << ">"; }
         else if constexpr (has_sop<U>::value) { out << "<"; const_cast<U&>(x).serializeOp(*this); out << ">"; }
         else if constexpr (std::is_same_v<U, std::string>) { out << '"' << x << '"'; }
